@@ -189,15 +189,6 @@ Fixpoint actions_of (steps : list step) : list action :=
   | SThen _ :: r => actions_of r
   end.
 
-(* reproduce_scenario re-issues `'{} {}'.format(keyword, step.name)`: only the NAME of the step,
-   its Gherkin table is not passed on.  (repeat re-parses a text, which never has a table.) *)
-Fixpoint strip_tables (a : action) : action :=
-  match a with
-  | ASend n _ i => ASend n [] i
-  | ARepeat a' n => ARepeat (strip_tables a') n
-  | _ => a
-  end.
-
 Section Model.
   Variable I : Type.                                  (* state of the interpreter *)
   Variable i_queue : event -> I -> I.                 (* interpreter.queue(name, **parameters) *)
@@ -269,7 +260,7 @@ Section Model.
           | AReproduce nm =>
               match find_scenario nm feat with
               | None => Some (c, Failed)                         (* assert False, 'Unknown scenario' *)
-              | Some steps => nested (map strip_tables (actions_of steps)) c
+              | Some steps => nested (actions_of steps) c     (* each step re-issued with its table (_step_as_text) *)
               end
           | ARepeat a' n => nested (repeat a' n) c               (* for _ in range(repeat) *)
           | ASend n tbl inl_ =>
